@@ -94,6 +94,15 @@ def _replay_nearest(rows):
           n += 1
           if not (np.allclose(y, ds.out_data[exp] + 0.5 * Z, atol=1e-12) and np.array_equal(Q, Q0)):
               bad.append({"kind": "evaluate-noisy", "X": X, "expected_noise_first": (0.5 * Z[0]).tolist(), "got_noise_first": (y[0] - ds.out_data[exp][0]).tolist()})
+          # other configured noise levels, incl. one far below any "reasonable" floor: y - f = sqrt(noise_var) z exactly as configured
+          for nv in (1e-8, 4.0):
+              pr = ProblemFromDataset(ds, nv)
+              with mock.patch("numpy.random.normal", return_value=Z.copy()):
+                  yv = pr.evaluate(Q, noisy=True)
+              n += 1
+              if not np.allclose(yv - ds.out_data[exp], np.sqrt(nv) * Z, rtol=1e-9, atol=0):
+                  bad.append({"kind": "evaluate-noisy-level", "X": X, "noise_var": nv, "expected_noise_first": (np.sqrt(nv) * Z[0]).tolist(),
+                              "got_noise_first": (yv[0] - ds.out_data[exp][0]).tolist()})
           # the same point queried several times in one batch: every row gets its own draw
           rep = [0, 1, 0, 2, 0]
           Qd = Q[rep].copy()
